@@ -773,6 +773,9 @@ def c08(ck):
     ck.validate()
     ck.exhaustive = not quick
     ck.assumptions += ["tokens are given to the internal search already decomposed; whole phrases go through utf8proc NFKD in composed and decomposed spelling"]
+    # vacuity guard of the sweep: it ran (or the tree does not offer the internal lookup any more, which the evidence says)
+    if not getattr(ck, "swept", 0) and "word-lookup-sweep" not in getattr(ck, "unavailable", set()) and not ck.violations:
+        ck.infra.append("vacuous run: the mass sweep of the word lookup did not run")
 
 
 def spec_vectors(ck):
